@@ -19,13 +19,24 @@ NOTES = ("Technique family: static analysis only. Every check parses the "
          "it is not (sizes, orders, numbers of terminals/variables/"
          "datagrams); the latter are bounded checks, decided for that family "
          "only - DESIGN.md 1.3 and 4.31 say which rule is which, the "
-         "evidence file gives the family. Exit 2 + ANALYSIS-ERROR means the "
-         "analysis could not be carried out (anchor vanished, shape outside "
-         "the known idioms); it is never a verdict. The thorough tier adds "
-         "checker self-validation on the recorded corpora: 261 seeded "
-         "property-breaking changes (254 reported, 7 end without verdict), "
-         "16 mechanical variants and 261 hand-made behaviour-preserving "
-         "refactorings (239 silent, 22 recorded as not yet understood).")
+         "evidence file gives the family. Functions that talk to a device "
+         "through a few accessors (read_eeprom, to_operational, map_fmmu, "
+         "roundtrip, ...) are interpreted the same way against a small "
+         "model of what is behind the accessors (SII interface, ESC state "
+         "machine, FMMU registers, kernel map iteration) written in the "
+         "rule, for a listed family of images, delays, faults and call "
+         "histories: bounded, model-based checks of the source text at the "
+         "edge of the technique family, marked F in DESIGN.md 4.31; the "
+         "interpreter has a statement budget (non-termination is a "
+         "finding). Exit 2 + ANALYSIS-ERROR means the analysis could not be "
+         "carried out (anchor vanished, shape outside the known idioms); it "
+         "is never a verdict. The thorough tier adds checker "
+         "self-validation on the recorded corpora: 435 seeded "
+         "property-breaking changes (434 reported, one recorded gap), 16 "
+         "mechanical variants and 435 hand-made behaviour-preserving "
+         "refactorings (431 silent, 4 recorded as noisy). Held-out first-run "
+         "rates of the last two waves: 68 % of 87 unseen breaking changes "
+         "reported, 13 % of 87 unseen refactorings noisy (DESIGN.md 7.4).")
 
 _TRUST = ("Python semantics of the constructs the rules read; the frozen "
           "reference tables named in the evidence file (eBPF ISA encoding, "
@@ -319,42 +330,76 @@ _ABSTRACT = {
     "C01": "exhaustive abstract execution of the byte-swap lowering (18 "
            "endian formats x 2 widths) and tabulation of Memory.signed / "
            "the store-immediate predicate; path enumeration with "
-           "mode-variable propagation for opcode domains",
-    "C02": "abstract execution of ArrayGlobalVarDesc.unpack on packed "
-           "buffers (finite family)",
-    "C03": "shares the exhaustive byte-swap table of C01",
+           "mode-variable propagation for opcode domains; abstract "
+           "execution of EBPF.assemble on instruction lists; override rule "
+           "for the operator lowering",
+    "C02": "abstract execution of ArrayGlobalVarDesc.unpack and "
+           "HashGlobalVarDesc.__get__ on packed cells (finite family); "
+           "unary-operator table; who-may-decode rule",
+    "C03": "shares the exhaustive byte-swap table of C01 and the rounding "
+           "rule of C02; abstract execution of SimpleComparison.target on "
+           "48 placeholder cases",
     "C04": "abstract execution of ArrayMap.collect on a finite family of "
-           "program hierarchies (bounded)",
+           "program hierarchies and of the bit-field store on 63 "
+           "field/value combinations x every old byte (bounded)",
     "C05": "exhaustive abstract execution of EBPF.exit over the exit-code "
-           "enumerations",
+           "enumerations and of the save_registers lists around helper "
+           "calls; abstract execution of prog_load / EBPF.load on names of "
+           "0..40 characters",
     "C06": "path enumeration with mode-variable propagation over "
-           "Memory._set",
+           "Memory._set; abstract execution of every fmt_addr; CFG rule on "
+           "TheDict.lookup",
     "C07": "shares the exhaustive byte-swap table and the store-immediate "
-           "tabulation of C01",
+           "tabulation of C01; override rule for switch_endian",
     "C08": "abstract execution of ArrayMap.collect, SimulatedEBPF.__init__ "
-           "and unpack on finite families of hierarchies / formats (bounded)",
-    "C09": "abstract execution of TheDict.__init__ on opaque arguments",
-    "C11": "abstract execution of Packet.append/assemble on a finite family "
-           "of datagram lists with an independent frame decoder (bounded)",
+           "and unpack on finite families of hierarchies / formats "
+           "(bounded); who-may-decode rule; shares the sign-extension "
+           "tables of C01",
+    "C09": "abstract execution of TheDict.__init__, TheDict.__iter__ "
+           "(against a model of get_next_key), HashMap.init (two maps) and "
+           "the hash reads (bounded)",
+    "C10": "abstract execution of PerCPUArrayMap.create_map with a stand-in "
+           "open() over 9 CPU masks",
+    "C11": "abstract execution of Packet.append/assemble and "
+           "SterilePacket.sterile on finite families of datagram lists with "
+           "an independent frame decoder (bounded); who-may-append-writers "
+           "rule",
     "C12": "shares the frame family of C11; who-may-complete rule over the "
-           "class hierarchy",
-    "C13": "tabulation of the placeholder expressions over sizes up to the "
-           "datagram limit (bounded)",
-    "C17": "abstract execution of parse_sync_managers on 72 record tables "
-           "(bounded)",
+           "class hierarchy; CFG rules own-request / blocking-reads / "
+           "overflow progress",
+    "C13": "abstract execution of roundtrip on 31 argument lists run on one "
+           "master in two orders (bounded, with histories)",
+    "C14": "abstract execution of to_operational against a model of the ESC "
+           "state machine, 146 runs (bounded, model-based)",
+    "C16": "CFG must-pass rule on mbx_send",
+    "C17": "abstract execution of read_eeprom / _eeprom_read_one / "
+           "eeprom_read against a model of the SII interface (164 runs "
+           "with histories), of parse_sync_managers on 72 record tables, of "
+           "parse_pdos on 32 tables from both sources and of apply_eeprom's "
+           "sizes (bounded, model-based)",
     "C18": "abstract execution of SyncGroupBase.allocate and everything it "
            "calls on 15 terminal groups, checked against an independent "
-           "frame description (bounded)",
-    "C19": "shares the allocation family of C18; exhaustive abstract "
-           "execution of TerminalVar over value kinds",
-    "C21": "shares the allocation family of C18; linear normal forms of "
-           "frame offsets",
-    "C26": "shares the allocation family of C18 and the activation rule of "
-           "C21",
+           "frame description; of append_fmmu, map_fmmu's register image "
+           "and the flag merge of SyncGroupBase.__init__ (bounded)",
+    "C19": "shares the allocation family of C18 and the PDO tables of C17; "
+           "abstract execution of the descriptors with descriptor objects "
+           "shared across channels and of TerminalVar over value kinds",
+    "C20": "abstract execution of map_fmmu on all slot tables of 1-4 FMMUs "
+           "over three owner kinds (720 runs)",
+    "C21": "shares the allocation family of C18 and the sterile / writer "
+           "rules of C11; linear normal forms of frame offsets; aliasing "
+           "rule for the sterile template; CFG rule for the slot lookup",
+    "C23": "effect rule over the file-system operations of ParallelEtherCat",
+    "C25": "abstract execution of assigned_address (18 cases); CFG "
+           "check-then-add rule",
+    "C26": "shares the allocation family of C18, the descriptor scenarios "
+           "of C19 and the activation rule of C21",
     "C27": "exhaustive abstract execution of Valve.update/reset over the "
-           "128-row state space x 2 time classes",
+           "128-row state space x 2 time classes; CFG must-pass rule on "
+           "SyncGroup.update_devices",
     "C29": "shares the layout family of C08",
-    "C30": "shares the allocation family of C18",
+    "C30": "shares the allocation family of C18; CFG must-pass rule on "
+           "SyncGroup.update_devices",
 }
 for _p, _t in _ABSTRACT.items():
     if _p in CLAIMS:
